@@ -220,11 +220,25 @@ func shortPkg(p *types.Package) string {
 }
 
 // sortOf maps a Go type to an SMT sort, declaring datatypes on demand.
+// sortTypes remembers (across contexts) which Go type a struct sort name stands
+// for, so that a sort mentioned only through a memoised write set can be declared.
+var sortTypes = map[string]types.Type{}
+
+func (c *Ctx) ensureSort(key string) {
+	if !strings.HasPrefix(key, "T_") || c.declared["struct:"+key] {
+		return
+	}
+	if t, ok := sortTypes[key]; ok {
+		c.sortOf(t)
+	}
+}
+
 func (c *Ctx) sortOf(t types.Type) string {
 	switch tt := t.(type) {
 	case *types.Named:
 		if st, ok := tt.Underlying().(*types.Struct); ok {
 			name := "T_" + sanitize(shortPkg(tt.Obj().Pkg())+"_"+tt.Obj().Name())
+			sortTypes[name] = t
 			c.declStruct(name, st)
 			return name
 		}
